@@ -224,6 +224,13 @@ def classify (univ : List Cert) (ctx : StepCtx) (modelTok implTok : String) : Li
 
 def handleShim (op : String) (args : List String) (impl : Option (List String)) : Option Reply :=
   match op, args with
+  | "vtime", [vaS, vbS, tS] =>
+    -- `ValidateSSHCertTime` at the ends of the window: the statement's "inside its validity window"
+    match vaS.toNat?, vbS.toNat?, tS.toNat? with
+    | some va, some vb, some t =>
+      let expected := [if validAt ⟨0, 0, va, vb, false, none⟩ t then "1" else "0"]
+      some ⟨expected, impl.map fun out => if out == expected then "ok" else "bad:C07.validity-window"⟩
+    | _, _, _ => some badProto
   | "fwdmax", _ =>
     -- raw requests whose reply is just below / at / just above the 16 MiB framing bound: relayed
     -- byte for byte (above the bound an error is in order too); the statement allows one outcome
